@@ -448,6 +448,15 @@ fix(
 )
 
 
+# repairs delivered by builders as JSON (id, message, file, old, new)
+import json as _json
+for _extra in ("c12_extra_fixes.json",):
+    _p = pathlib.Path("/verif/notes") / _extra
+    if _p.exists():
+        for _e in _json.loads(_p.read_text()):
+            fix(_e["id"], _e["message"], (_e["file"], _e["old"], _e["new"]))
+
+
 def apply(tree, idents):
     tree = pathlib.Path(tree)
     for ident in idents:
